@@ -16,7 +16,7 @@ RULE = ("chains of 1..6 method calls on lists of 0..8 ragged dicts (keys a,b in 
         "modify, modify_if, fill_missing_keys, append, extend, insert (index in -len-2..len+2), +, *, reverse, head, tail (n in 0..len+2), "
         "slicing; every step is judged (oracle on plain lists/dicts + model); non-trivial = list of >=2 items and a result differing from the input")
 
-METHODS = ["filter_fn", "filter_out_fn", "filter_kv", "filter_out_kv", "sort", "unique", "select", "unselect", "rename",
+METHODS = ["filter_fn", "filter_out_fn", "filter_kv", "filter_out_kv", "sort", "unique", "unique_all", "group_by", "select", "unselect", "rename",
            "modify", "modify_if", "fill", "fill_all", "append", "extend", "insert", "add", "mul", "reverse", "head", "tail", "slice"]
 
 
@@ -33,6 +33,10 @@ def gen_step(rng, n_hint):
         st["keys"] = [[k, rng.choice([1, -1])] for k in ks]
     if m == "unique":
         st["keys"] = rng.sample(lodgen.COMMON, rng.choice([1, 2]))
+    if m == "group_by":
+        # marks the list (and, through _new, every list derived from it) for a later aggregate; no other method of this
+        # property is documented to look at it
+        st["keys"] = rng.sample(lodgen.COMMON, 1)
     if m in ("select", "unselect"):
         st["keys"] = rng.sample(lodgen.COMMON + lodgen.RAGGED, rng.randint(1, 3))
     if m == "rename":
@@ -94,6 +98,14 @@ def gen_cases(ctx):
                 st["key"] = "a"
             between.append(st)
         cases.append({"op": "chain", "dicts": dicts, "steps": [first] + between + [copy.deepcopy(first)]})
+    # a list that was grouped earlier (group_by marks the receiver, _new hands the mark on) used through methods that
+    # are not group-wise
+    for _ in range(n // 10):
+        dicts = lodgen.gen_dicts(rng)
+        mid = [gen_step(rng, len(dicts)) for _ in range(rng.choice([0, 1, 1, 2]))]
+        mid = [st for st in mid if st["m"] not in ("group_by",)]
+        last = rng.choice([{"m": "unique_all"}, {"m": "unique_all"}, {"m": "sort", "keys": [["b", 1]]}, {"m": "filter_kv", "kvs": [["a", 1]]}, {"m": "head", "n": 2}])
+        cases.append({"op": "chain", "dicts": dicts, "steps": [{"m": "group_by", "keys": [rng.choice(lodgen.COMMON)]}] + mid + [last]})
     if ctx.tier == "thorough":
         for ln in range(0, 5):
             dicts = [{"a": i % 2, "b": "x"} for i in range(ln)]
@@ -125,6 +137,8 @@ def apply_impl(lod, st):
         return lod.sort(**dict(map(tuple, st["keys"])))
     if m == "unique":
         return lod.unique(*st["keys"])
+    if m == "unique_all":
+        return lod.unique()
     if m == "select":
         return lod.select(*st["keys"])
     if m == "unselect":
@@ -189,6 +203,19 @@ def impl(case):
                 rec["skipped"] = True
                 steps.append(rec)
                 continue
+            if st["m"] == "group_by":
+                lod = lod.group_by(*st["keys"])       # returns the receiver; nothing to observe
+                rec["skipped"] = True
+                steps.append(rec)
+                continue
+            if st["m"] == "unique_all":
+                # unique() without keys = unique by the keys common to all items
+                common = sorted(set.intersection(*[set(item) for item in lod])) if len(lod) else []
+                if len(lod) and not common:
+                    rec["skipped"] = True
+                    steps.append(rec)
+                    continue
+                rec["st"] = {"m": "unique", "keys": common}
             if any(k not in item for item in lod for k in needed_keys(st)):
                 # plain dict semantics: KeyError (outside the quantifier); the step is skipped
                 rec["skipped"] = True
@@ -291,6 +318,7 @@ def model_requests(case, obs):
         if "post" not in rec:
             break
         xs = lodgen.to_model_items(rec["pre"])
+        st = rec.get("st", st)
         m = st["m"]
         known = {t for t, kv in rec["pre"]}
         fresh = [t for t, kv in rec["post"] if t not in known]
@@ -374,6 +402,7 @@ def same_items(got, exp, ordered_keys):
 def judge(ctx, case, obs, mouts):
     nontrivial = False
     for idx, (st, rec) in enumerate(zip(case["steps"], obs["steps"])):
+        st = rec.get("st", st)
         m = st["m"]
         if rec.get("skipped"):
             ctx.count("skipped-missing-key")
